@@ -747,6 +747,12 @@ func (s *Sim) taskPanicked(t *coro.Task) {
 			for _, pr := range []string{"C04", "C08", "C10", "C16"} {
 				s.ctx.Violate(pr, "restart-failed", "%sreplica %d cannot be restarted after a crash: %s @ %s", cause, h.replicaID, short, origin)
 			}
+			if h.imported && !s.importFlipAccepted {
+				// (an export with a flipped bit that ImportSnapshot did not notice is
+				// expected to fail loudly when it is loaded: importFlipAccepted)
+				// C20: a shard repaired by import runs on (and restarts) like any other
+				s.ctx.Violate("C20", "restart-failed", "%simported replica %d cannot be restarted after a crash: %s @ %s", cause, h.replicaID, short, origin)
+			}
 		}
 		s.orc.panics = append(s.orc.panics, short+" @ "+origin)
 		s.ctx.Count("panic@"+origin, 1)
